@@ -14,10 +14,12 @@ use crate::error::Result;
 use crate::services::helpers::encode_credential_attribute;
 use crate::types::{PresentationRequest, RevocationRegistryDefinition, RevocationStatusList};
 use crate::utils::query::Query;
-use crate::verifier::{check_non_revoked_interval, gather_filter_info, process_operator};
+use crate::verifier::{
+    check_non_revoked_interval, gather_filter_info, process_operator, require_non_revocation_proof,
+};
 use crate::verifier::{verify_revealed_attribute_value, CLProofVerifier};
 use anoncreds_clsignatures::{Proof, SubProof};
-use std::collections::HashMap;
+use std::collections::{HashMap, HashSet};
 
 /// Verify an incoming presentation in W3C form
 pub fn verify_presentation(
@@ -49,7 +51,7 @@ pub fn verify_presentation(
     // These values are from the prover and cannot be trusted
     // Check that all requested attributes and predicates included into the presentation
     // Also check that all requested credential restriction are valid
-    check_request_data(
+    let non_revocation_required_for = check_request_data(
         presentation_request,
         presentation,
         schemas,
@@ -70,7 +72,10 @@ pub fn verify_presentation(
 
     let mut sub_proofs: Vec<SubProof> = Vec::with_capacity(credential_proofs.len());
 
-    for credential_proof in credential_proofs {
+    for (index, credential_proof) in credential_proofs.into_iter().enumerate() {
+        if non_revocation_required_for.contains(&index) {
+            require_non_revocation_proof(&credential_proof.sub_proof)?;
+        }
         proof_verifier.add_sub_proof(
             &credential_proof.sub_proof,
             &credential_proof.schema_id,
@@ -133,7 +138,7 @@ fn check_credential_non_revoked_interval(
         &HashMap<RevocationRegistryDefinitionId, HashMap<u64, u64>>,
     >,
     proof: &CredentialPresentationProofValue,
-) -> Result<()> {
+) -> Result<bool> {
     let cred_def = cred_defs.get(&proof.cred_def_id).ok_or_else(|| {
         err_msg!(
             "Credential Definition not provided for ID: {:?}",
@@ -163,16 +168,16 @@ fn check_credential_conditions(
         &HashMap<RevocationRegistryDefinitionId, HashMap<u64, u64>>,
     >,
     proof: &CredentialPresentationProofValue,
-) -> Result<()> {
+) -> Result<bool> {
     check_credential_restrictions(credential, restrictions, schemas, cred_defs, proof)?;
+    // whether a non-revocation interval applies to (and is met by) this credential
     check_credential_non_revoked_interval(
         presentation_request,
         cred_defs,
         nonrevoke_interval,
         nonrevoke_interval_override,
         proof,
-    )?;
-    Ok(())
+    )
 }
 
 #[allow(clippy::too_many_arguments)]
@@ -188,6 +193,7 @@ fn check_requested_attribute<'a>(
         &HashMap<RevocationRegistryDefinitionId, HashMap<u64, u64>>,
     >,
     credential_proofs: &[CredentialPresentationProofValue],
+    non_revocation_required_for: &mut HashSet<usize>,
 ) -> Result<&'a W3CCredential> {
     // find a credential matching to requested attribute
     for (index, credential) in presentation.verifiable_credential.iter().enumerate() {
@@ -204,7 +210,7 @@ fn check_requested_attribute<'a>(
             }
 
             // check credential restrictions
-            if check_credential_conditions(
+            match check_credential_conditions(
                 credential,
                 presentation_request,
                 restrictions,
@@ -213,13 +219,16 @@ fn check_requested_attribute<'a>(
                 nonrevoke_interval,
                 nonrevoke_interval_override,
                 proof,
-            )
-            .is_err()
-            {
-                continue;
+            ) {
+                Ok(non_revocation_required) => {
+                    // a non-revocation interval applies to the credential that serves this request
+                    if non_revocation_required {
+                        non_revocation_required_for.insert(index);
+                    }
+                    return Ok(credential);
+                }
+                Err(_) => continue,
             }
-
-            return Ok(credential);
         }
     }
 
@@ -238,7 +247,7 @@ fn check_requested_attribute<'a>(
         }
 
         // check credential restrictions
-        if check_credential_conditions(
+        match check_credential_conditions(
             credential,
             presentation_request,
             restrictions,
@@ -247,13 +256,16 @@ fn check_requested_attribute<'a>(
             nonrevoke_interval,
             nonrevoke_interval_override,
             proof,
-        )
-        .is_err()
-        {
-            continue;
+        ) {
+            Ok(non_revocation_required) => {
+                // a non-revocation interval applies to the credential that serves this request
+                if non_revocation_required {
+                    non_revocation_required_for.insert(index);
+                }
+                return Ok(credential);
+            }
+            Err(_) => continue,
         }
-
-        return Ok(credential);
     }
 
     Err(err_msg!(
@@ -273,6 +285,7 @@ fn check_requested_predicate<'a>(
     nonrevoke_interval_override: Option<
         &HashMap<RevocationRegistryDefinitionId, HashMap<u64, u64>>,
     >,
+    non_revocation_required_for: &mut HashSet<usize>,
 ) -> Result<&'a W3CCredential> {
     // find a credential matching to requested predicate
     for (index, credential) in presentation.verifiable_credential.iter().enumerate() {
@@ -294,7 +307,7 @@ fn check_requested_predicate<'a>(
             }
 
             // check credential restrictions
-            if check_credential_conditions(
+            match check_credential_conditions(
                 credential,
                 presentation_request,
                 predicate.restrictions.as_ref(),
@@ -303,13 +316,16 @@ fn check_requested_predicate<'a>(
                 predicate.non_revoked.as_ref(),
                 nonrevoke_interval_override,
                 proof,
-            )
-            .is_err()
-            {
-                continue;
+            ) {
+                Ok(non_revocation_required) => {
+                    // a non-revocation interval applies to the credential that serves this request
+                    if non_revocation_required {
+                        non_revocation_required_for.insert(index);
+                    }
+                    return Ok(credential);
+                }
+                Err(_) => continue,
             }
-
-            return Ok(credential);
         }
     }
 
@@ -328,7 +344,11 @@ fn check_request_data(
         &HashMap<RevocationRegistryDefinitionId, HashMap<u64, u64>>,
     >,
     credential_proofs: &[CredentialPresentationProofValue],
-) -> Result<()> {
+) -> Result<HashSet<usize>> {
+    // positions of the credentials whose sub-proof must carry a non-revocation proof, because a
+    // non-revocation interval applies to a request they serve
+    let mut non_revocation_required_for: HashSet<usize> = HashSet::new();
+
     for (_, attribute) in presentation_request.requested_attributes.iter() {
         if let Some(ref name) = attribute.name {
             check_requested_attribute(
@@ -341,6 +361,7 @@ fn check_request_data(
                 cred_defs,
                 nonrevoke_interval_override,
                 credential_proofs,
+                &mut non_revocation_required_for,
             )?;
         }
         if let Some(ref names) = attribute.names {
@@ -355,6 +376,7 @@ fn check_request_data(
                     cred_defs,
                     nonrevoke_interval_override,
                     credential_proofs,
+                    &mut non_revocation_required_for,
                 )?;
             }
         }
@@ -368,6 +390,7 @@ fn check_request_data(
             schemas,
             cred_defs,
             nonrevoke_interval_override,
+            &mut non_revocation_required_for,
         )?;
     }
 
@@ -390,7 +413,7 @@ fn check_request_data(
         }
     }
 
-    Ok(())
+    Ok(non_revocation_required_for)
 }
 
 #[cfg(test)]
